@@ -4,7 +4,8 @@
 //! Each case calls the function directly and through `Impl<T>` and compares the recorded
 //! (function, arguments) trace and the result.
 //! The impl-block and parameter-name cases make it a probe of C07 and C16 as well.
-//! ALSO: C07 C16
+//! The entraited-trait cases make it a probe of C06 too.
+//! ALSO: C06 C07 C16
 use entrait::*;
 use std::cell::RefCell;
 
@@ -56,6 +57,24 @@ macro_rules! impl_block {
     };
 }
 
+// the three kinds of entraited traits (a `macro_rules!`-stamped function with a *concrete* dependency is not
+// supported by the unchanged crate: E0424, `self` hygiene of the nested invocation — DESIGN §9, noted)
+macro_rules! entraited_traits {
+    ($TrSelf:ident, $TrRef:ident, $TrBorrow:ident, $f:ident, $g:ident, $h:ident, $x:ident) => {
+        #[entrait]
+        pub trait $TrSelf { fn $f(&self, k: i64, $x: i64) -> i64; }
+        #[entrait(delegate_by = ref)]
+        pub trait $TrRef { fn $g(&self, k: i64, $x: i64) -> i64; }
+        #[entrait(delegate_by = Borrow)]
+        pub trait $TrBorrow { fn $h(&self, k: i64, $x: i64) -> i64; }
+        impl $TrSelf for App { fn $f(&self, k: i64, $x: i64) -> i64 { rec(stringify!($f), &[k, $x]); k * 10 + $x } }
+        impl $TrRef for App { fn $g(&self, k: i64, $x: i64) -> i64 { rec(stringify!($g), &[k, $x]); k * 10 + $x } }
+        impl $TrBorrow for App { fn $h(&self, k: i64, $x: i64) -> i64 { rec(stringify!($h), &[k, $x]); k * 10 + $x } }
+        impl AsRef<dyn $TrRef> for App { fn as_ref(&self) -> &(dyn $TrRef + 'static) { self } }
+        impl std::borrow::Borrow<dyn $TrBorrow> for App { fn borrow(&self) -> &(dyn $TrBorrow + 'static) { self } }
+    };
+}
+
 two_params!(A1, a1, _d, k);            // collision
 two_params!(A2, a2, _d, other_name);   // control
 two_params_no_deps!(B1, b1, k);
@@ -63,6 +82,7 @@ three_params_mod!(C1, c1m, c1, _d, k, j);
 three_params_mod!(C2, c2m, c2, _d, j, k);
 by_value_dep!(D1, d1, _d, k);
 impl_block!(E1, E1Impl, SelE1, e1, _d, k);
+entraited_traits!(G1, G2, G3, g1, g2, g3, k);
 
 fn check(name: &str, direct: impl FnOnce() -> i64, via: impl FnOnce() -> i64, bad: &mut u32) {
     let r1 = direct();
@@ -87,6 +107,9 @@ fn main() {
     check("c2.other", || c2m::other(&app, 7, 2), || C2::other(&app, 7, 2), &mut bad);
     check("d1", || d1(Impl::new(App), 5, 6), || Impl::new(App).d1(5, 6), &mut bad);
     check("e1", || Holder::e1(&app, 8, 9), || app.e1(8, 9), &mut bad);
-    println!("C01-PROBE cases=9 failed={bad}");
+    check("g1", || App.g1(2, 3), || app.g1(2, 3), &mut bad);
+    check("g2", || App.g2(2, 3), || app.g2(2, 3), &mut bad);
+    check("g3", || App.g3(2, 3), || app.g3(2, 3), &mut bad);
+    println!("C01-PROBE cases=12 failed={bad}");
     std::process::exit(if bad == 0 { 0 } else { 1 });
 }
